@@ -208,6 +208,8 @@ func runSysWS(x *X) {
 	closer := c.Intn(3, "closer") // 0 client, 1 backend, 2 client after everything
 	closeAfter := c.Intn(len(cMsgs)+len(bMsgs)+1, "close-after")
 	writes, closed, cutSeen := 0, false, false
+	removeServing := o.nBackends == 2 && c.Intn(5, "remove-serving-backend") == 0
+	poolChanged := false
 	extra := func() []string {
 		client.mu.Lock()
 		backend.mu.Lock()
@@ -223,6 +225,9 @@ func runSysWS(x *X) {
 		}
 		if idles > 0 {
 			evs = append(evs, "idle")
+		}
+		if removeServing {
+			evs = append(evs, "remove-backend")
 		}
 		if ci < len(cMsgs) {
 			evs = append(evs, "c-write")
@@ -257,6 +262,20 @@ func runSysWS(x *X) {
 			if cut && !cutSeen {
 				cutSeen = true
 				x.Violate("C20", "C20/session-cut-by-helios", "after %v of silence in an open session (Connection: %s, handler timeout %ds) one end saw its connection closed although neither side had closed", d, connHdr, o.timeouts.Handler)
+			}
+		case "remove-backend":
+			// the operator takes the backend that carries this session out of the pool: no new requests
+			// for it -- the session that is established goes on until one of its ends closes it
+			removeServing = false
+			for _, b := range env.backends {
+				env.mu.Lock()
+				serving := b.wsServing
+				env.mu.Unlock()
+				if serving {
+					poolChanged = true
+					env.lb.RemoveBackend(b.name)
+					x.Fault("serving-backend-removed-mid-session")
+				}
 			}
 		case "close":
 			closed = true
@@ -382,7 +401,7 @@ func runSysWS(x *X) {
 	// ---- C05: a finished tunnel leaves no trace in the in-flight counts ---------------------------
 	// After the session is over, one slow request is held in flight and a second one arrives: under
 	// least_connections with two backends it goes to the other backend.
-	if done && x.Want("C05") && o.strategy == "least_connections" && o.nBackends == 2 {
+	if done && x.Want("C05") && o.strategy == "least_connections" && o.nBackends == 2 && !poolChanged {
 		client.mu.Unlock()
 		backend.mu.Unlock()
 		waitQuiet()
